@@ -12,8 +12,10 @@ THEOREMS = [
     (P + "parents_stay_active_partial", "proved", "PARTIAL (clause 4 - every active state's parent is active - in full, for history-free charts): on every coherent chart numbered in pre-order without history states whose selectable transitions are plain (decidable EntryOk / SelPlain / SelPlainF, evaluated on the generated charts: suite theorem-hypotheses), after EVERY sequence of API operations on EITHER engine the configuration is parent-closed and made of the root and real states of the chart (which is the hypothesis ConfigOk of the structural theorems of C01/C03/C05: it holds of every reachable configuration). With history states the statement is false of the code (finding hist-shared)"),
     (P + "parents_stay_active_of_document_partial", "proved", "the same for flatten of every well-formed document without <history> elements: coherence, numbering and EntryOk are theorems there (Proofs/EntryDoc.lean); only SelPlain/SelPlainF remain evaluated"),
     ("UscxmlVerif.Proofs.EntryDoc.entryOk_flatten", "proved", "EntryOk (flatten d) for every well-formed history-free document"),
-    (P + "active_states_are_complete_partial", "proved", "PARTIAL (clauses 5 and 6 - every active parallel state has all its children active, every active compound state has an active child - LargeMicroStep, history-free charts): for every coherent chart numbered in pre-order that meets the decidable DownOk (completions and <initial> transitions point downwards, <initial> elements precede their siblings, children lists complete; evaluated on every generated chart), after EVERY sequence of API operations the configuration is complete downwards. Rests on: the entry loop visits every member of the growing entry set (sorted insertion never moves the visited prefix), and a state that stays while a child is exited is the domain of a selected transition"),
-    (P + "step_keeps_complete", "proved", "one step of LargeMicroStep keeps parent closure and downward completeness from any state that has them"),
+    (P + "active_states_are_complete_partial", "proved", "PARTIAL (clauses 5 and 6 - every active parallel state has all its children active, every active compound state has an active child - both engines, history-free charts): for every coherent chart numbered in pre-order that meets the decidable DownOk (completions and <initial> transitions point downwards, <initial> elements precede their siblings, children lists complete; evaluated on every generated chart), after EVERY sequence of API operations the configuration is complete downwards. Rests on: the entry loop visits every member of the growing entry set (sorted insertion never moves the visited prefix), and a state that stays while a child is exited is the domain of a selected transition"),
+    (P + "step_keeps_complete", "proved", "one step of either engine keeps parent closure and downward completeness from any state that has them"),
+    (P + "root_is_active_partial", "proved", "PARTIAL (clause 1, history-free charts, both engines): after the first step the root is active, for every sequence of API operations"),
+    ("UscxmlVerif.Proofs.DownFast.fast_descLoop_post", "proved", "FastMicroStep's entry loop (next greater member; <initial> elements dropped once expanded) serves every member of the entry set - argued over the ghost set of dropped elements"),
     ("UscxmlVerif.Proofs.Down.descLoop_post", "proved", "after LargeMicroStep's descendant loop every member of the entry set has been served: parallel states have all children in the set, compound states a child in the set or an active one that stays, <initial> elements their targets with ancestors"),
     ("UscxmlVerif.Proofs.DownExit.exit_respects", "proved", "a state that stays active although a child of it is exited is the domain of a selected transition: no parallel state, and above that transition's targets"),
     (P + "step_keeps_parents", "proved", "one step of either engine keeps the invariant from any state that has it"),
@@ -22,7 +24,7 @@ THEOREMS = [
     (P + "step_keeps_set", "proved", "one step of either engine keeps that invariant from any state that has it"),
 ]
 FINISH = {"level": "exploration"}   # the four structural clauses of legality are decided by exploration only
-LEAN_FILES = ["UscxmlVerif.Properties.C02", "UscxmlVerif.Proofs.CfgInv", "UscxmlVerif.Proofs.Root", "UscxmlVerif.Proofs.ExitClosed", "UscxmlVerif.Proofs.EntryClosed", "UscxmlVerif.Proofs.Parents", "UscxmlVerif.Proofs.ParentsFast", "UscxmlVerif.Proofs.EntryDoc", "UscxmlVerif.Proofs.SortedIns", "UscxmlVerif.Proofs.Down", "UscxmlVerif.Proofs.DownExit", "UscxmlVerif.Proofs.DownRun", "UscxmlVerif.Proofs.DownOk"]
+LEAN_FILES = ["UscxmlVerif.Properties.C02", "UscxmlVerif.Proofs.CfgInv", "UscxmlVerif.Proofs.Root", "UscxmlVerif.Proofs.ExitClosed", "UscxmlVerif.Proofs.EntryClosed", "UscxmlVerif.Proofs.Parents", "UscxmlVerif.Proofs.ParentsFast", "UscxmlVerif.Proofs.EntryDoc", "UscxmlVerif.Proofs.SortedIns", "UscxmlVerif.Proofs.Down", "UscxmlVerif.Proofs.DownExit", "UscxmlVerif.Proofs.DownRun", "UscxmlVerif.Proofs.DownOk", "UscxmlVerif.Proofs.DownFast", "UscxmlVerif.Proofs.DownRunFast", "UscxmlVerif.Proofs.RootActive"]
 
 
 def cfgs_of(tokens):
